@@ -9,7 +9,7 @@ import json, os, random, re, subprocess, sys
 
 ROOT = "/verif"
 FILES = {
-    "src/backend/query_builder.rs": ["C01", "C02", "C05", "C07", "C08"],
+    "src/backend/query_builder.rs": ["C01", "C02", "C05", "C07", "C08", "C04", "C03", "C06"],
     "src/backend/mysql/query.rs": ["C01", "C08", "C09"],
     "src/backend/postgres/query.rs": ["C01", "C03", "C05", "C08"],
     "src/backend/sqlite/query.rs": ["C02", "C07"],
